@@ -55,6 +55,18 @@ class Git:
             # The project is not using git (or something else went wrong).
             return None
 
+        # `git diff-index` trusts the index's cached file metadata: a tracked
+        # file whose timestamps changed but whose contents did not (touch, a
+        # copied checkout, a restored backup) would be reported as modified.
+        # Refreshing the index first makes the comparison content-based. The
+        # refresh is best effort (e.g., a read-only repository).
+        subprocess.run(
+            ["git", "update-index", "-q", "--refresh"],
+            cwd=self._project_root,
+            stdout=subprocess.DEVNULL,
+            stderr=subprocess.DEVNULL,
+            check=False,
+        )
         is_clean = subprocess.run(
             ["git", "diff-index", "--quiet", "HEAD"],
             cwd=self._project_root,
